@@ -675,7 +675,13 @@ fn import_spec(t: &T, cand: &[Named; 2]) -> Result<[Dense; 2], BTreeSet<&'static
                     viol.insert("UninitializedInfoset");
                 }
             } else {
-                let m = w.get(l).cloned().unwrap_or_default();
+                let mut m = w.get(l).cloned().unwrap_or_default();
+                // shares are scale free: divide by the largest weight first so that the total of
+                // huge finite weights cannot overflow in the oracle
+                let mx = m.values().cloned().fold(0.0f64, f64::max);
+                if mx > 0.0 {
+                    m.values_mut().for_each(|x| *x /= mx);
+                }
                 let mut tot = 0.0;
                 for a in legal {
                     tot += m.get(a).cloned().unwrap_or(0.0);
@@ -729,7 +735,9 @@ pub fn case_import(ctx: &mut Ctx, case: &Value) {
         Ok(g) => g,
         Err(e) => return ctx.fail_corr(case, format!("tree rejected: {:?}", e)),
     };
-    let overflow = import_overflows(&t, &cand);
+    // `strict` (used by known-finding witnesses) switches the class exclusion off
+    let strict = case.get("strict").and_then(|x| x.as_bool()).unwrap_or(false);
+    let overflow = import_overflows(&t, &cand) && !strict;
     let a = catch_unwind(AssertUnwindSafe(|| import_outcome(game.from_named(cand.clone()))));
     let b = catch_unwind(AssertUnwindSafe(|| import_outcome(game.from_named_eq(cand.clone()))));
     let (a, b) = match (a, b) {
@@ -1112,6 +1120,9 @@ pub fn case_distance(ctx: &mut Ctx, case: &Value) {
                 }
                 if p < 1.0 && d[q] > 1.0 + 1e-12 {
                     ctx.stat("known_finding_class_p_below_one_overshoot");
+                    if case.get("strict").and_then(|x| x.as_bool()).unwrap_or(false) {
+                        ctx.fail_prop(case, format!("player {} distance {:e} above 1 for p = {:e}", q + 1, d[q], p));
+                    }
                 }
                 if differ == 0.0 && d[q] != 0.0 {
                     ctx.fail_prop(case, format!("player {} distance {:e} between equal strategies", q + 1, d[q]));
